@@ -20,6 +20,13 @@
 //!   crossed in both argument orders with every lattice line and with each other.  All coordinates are
 //!   integers in units of 2^-19, so parallel / crossing / on-line are again decided in i128.
 //!
+//! * EXTREME RADIUS RATIOS near the tangency boundaries: circle pairs with dyadic radii R >> r (R/r from 4
+//!   to 1280), the larger one centred at the origin, at a lattice point and at two non-lattice positions,
+//!   the smaller one along axis and Pythagorean directions at centre distance R + r -+ delta (crossing /
+//!   separated) and R - r +- delta (crossing / nested), delta = 1e-8 … 1e-3, i.e. 10 … 10^6 times the
+//!   library's tolerance; the class is decided by the sign of delta.  (The lattice families reach large
+//!   radii only together with large scales, never a large RATIO of radii.)
+//!
 //! Nothing here is sampled: all centres x radii x ordered point pairs of the stated lattice are visited.
 
 use rayon::prelude::*;
@@ -45,6 +52,11 @@ const NEAR_FLOOR: f64 = 2e-9;
 const BIN: i64 = 1 << 19;
 
 type IP = (i64, i64);
+
+/// extreme-radius-ratio family: smallest admissible |delta| (10x the library's tolerance)
+const RATIO_FLOOR: f64 = 1e-8;
+/// extreme-radius-ratio family: the fed centre distance must reproduce the intended delta this well (relatively)
+const RATIO_GAP_REL: f64 = 1e-3;
 
 fn pert_tag(i: usize) -> String {
     format!("{:+e}", PERTS[i])
@@ -172,6 +184,11 @@ enum C {
     SkewLlSteepFirst,
     SkewContainsOn,
     SkewContainsOff,
+    RatioCcIntersect,
+    RatioCcNoneOutside,
+    RatioCcNoneInside,
+    RatioObsIntersect,
+    RatioObsTouch,
     N,
 }
 
@@ -222,6 +239,11 @@ const CNAMES: [&str; C::N as usize] = [
     "skew_ll_first_line_minor_coefficient_below_1e-6",
     "skew_contains_on",
     "skew_contains_off",
+    "ratio_cc_exact_intersect",
+    "ratio_cc_exact_none_outside",
+    "ratio_cc_exact_none_inside",
+    "ratio_cc_observed_intersect",
+    "ratio_cc_observed_touch",
 ];
 
 #[derive(Clone)]
@@ -235,6 +257,17 @@ struct Acc {
     gap_skew_parallel: f64,
     gap_skew_contains: f64,
     max_dev: f64,
+    /// extreme-radius-ratio family: smallest |measured distance from the boundary|, largest relative
+    /// disagreement between measured and intended distance, largest |coordinate| on any fed circle
+    ratio_gap: f64,
+    ratio_gap_rel_err: f64,
+    ratio_reach: f64,
+    /// extreme-radius-ratio family, over accepted answers: largest distance of a returned point from a
+    /// circle, smallest mutual distance of two returned points
+    ratio_max_off: f64,
+    ratio_min_apart: f64,
+    /// extreme-radius-ratio family: failing cases per (check, R, r, centre distance)
+    ratio_fails: BTreeMap<String, u64>,
     fails: BTreeMap<&'static str, (Key, Violation)>,
     fail_counts: BTreeMap<&'static str, u64>,
     notes: BTreeMap<&'static str, (Key, Value)>,
@@ -252,6 +285,12 @@ impl Acc {
             gap_skew_parallel: f64::INFINITY,
             gap_skew_contains: f64::INFINITY,
             max_dev: 0.0,
+            ratio_gap: f64::INFINITY,
+            ratio_gap_rel_err: 0.0,
+            ratio_reach: 0.0,
+            ratio_max_off: 0.0,
+            ratio_min_apart: f64::INFINITY,
+            ratio_fails: BTreeMap::new(),
             fails: BTreeMap::new(),
             fail_counts: BTreeMap::new(),
             notes: BTreeMap::new(),
@@ -293,6 +332,14 @@ impl Acc {
         self.gap_skew_parallel = self.gap_skew_parallel.min(o.gap_skew_parallel);
         self.gap_skew_contains = self.gap_skew_contains.min(o.gap_skew_contains);
         self.max_dev = self.max_dev.max(o.max_dev);
+        self.ratio_gap = self.ratio_gap.min(o.ratio_gap);
+        self.ratio_gap_rel_err = self.ratio_gap_rel_err.max(o.ratio_gap_rel_err);
+        self.ratio_reach = self.ratio_reach.max(o.ratio_reach);
+        self.ratio_max_off = self.ratio_max_off.max(o.ratio_max_off);
+        self.ratio_min_apart = self.ratio_min_apart.min(o.ratio_min_apart);
+        for (f, n) in o.ratio_fails {
+            *self.ratio_fails.entry(f).or_insert(0) += n;
+        }
         for (f, n) in o.fail_counts {
             *self.fail_counts.entry(f).or_insert(0) += n;
         }
@@ -915,6 +962,182 @@ fn check_cc_near(acc: &mut Acc, key: Key, k: &CcCase, fa: &Point, fb: &Point) {
     }
 }
 
+
+// ------------------------------------------------------------------------------------------------
+// circle–circle: extreme radius ratios near the tangency boundaries
+// ------------------------------------------------------------------------------------------------
+
+/// A large circle (centre `c4`/4, dyadic radius `big`) and a small one (dyadic radius `small`) whose centre
+/// lies in direction (p/h, q/h) at distance `big + small + sd` (`inside` false) or `big - small + sd`
+/// (`inside` true) from the large one's.  The sign of `sd` decides the class.
+struct RatioCase {
+    big: f64,
+    small: f64,
+    c4: IP,
+    dir: (i64, i64, i64),
+    inside: bool,
+    sd: f64,
+}
+
+impl RatioCase {
+    fn base(&self) -> f64 {
+        if self.inside {
+            self.big - self.small
+        } else {
+            self.big + self.small
+        }
+    }
+    fn crossing(&self) -> bool {
+        self.inside == (self.sd > 0.0)
+    }
+    /// the fed circles (large, small)
+    fn circles(&self) -> (Circle, Circle) {
+        let c = Point::new(self.c4.0 as f64 / 4.0, self.c4.1 as f64 / 4.0);
+        let d = self.base() + self.sd;
+        let (p, q, h) = self.dir;
+        let (ux, uy) = (p as f64 / h as f64, q as f64 / h as f64);
+        (Circle::new(c, self.big), Circle::new(Point::new(c.x + ux * d, c.y + uy * d), self.small))
+    }
+    fn dist_text(&self) -> String {
+        format!("R{}r{}{:e}", if self.inside { '-' } else { '+' }, if self.sd > 0.0 { '+' } else { '-' }, self.sd.abs())
+    }
+    fn sig(&self) -> String {
+        let (p, q, h) = self.dir;
+        let dir = if h == 1 { format!("{p},{q}") } else { format!("{p}/{h},{q}/{h}") };
+        format!("R={:?};r={:?};c=({:?},{:?});dir={dir};d={}", self.big, self.small, self.c4.0 as f64 / 4.0, self.c4.1 as f64 / 4.0, self.dist_text())
+    }
+    fn replay(&self, fam: &str) -> Value {
+        json!({"case": "cc_ratio", "family": fam, "R": self.big, "r": self.small, "centre_quarters": [self.c4.0, self.c4.1], "dir": [self.dir.0, self.dir.1, self.dir.2], "inside": self.inside, "signed_delta": self.sd})
+    }
+    fn from_json(v: &Value) -> Option<RatioCase> {
+        let k = RatioCase {
+            big: v["R"].as_f64()?,
+            small: v["r"].as_f64()?,
+            c4: (v["centre_quarters"][0].as_i64()?, v["centre_quarters"][1].as_i64()?),
+            dir: (v["dir"][0].as_i64()?, v["dir"][1].as_i64()?, v["dir"][2].as_i64()?),
+            inside: v["inside"].as_bool()?,
+            sd: v["signed_delta"].as_f64()?,
+        };
+        let (p, q, h) = k.dir;
+        (k.big > k.small && k.small > 0.0 && h > 0 && p * p + q * q == h * h && k.sd.abs() >= RATIO_FLOOR).then_some(k)
+    }
+}
+
+/// One pair of the extreme-radius-ratio family against the real `intersect_cc`, in both argument orders.
+/// Demanded: the kind (Intersect / None), every returned point on both circles within 1e-7, two returned
+/// points distinct.  Where along the (tiny) common chord the points sit is not compared.
+fn check_cc_ratio(acc: &mut Acc, key: Key, k: &RatioCase) {
+    let (ca, cb) = k.circles();
+    let crossing = k.crossing();
+    let exact = if crossing { CcKind::Intersect } else { CcKind::None };
+    // the fed configuration's own distance from the boundary (f64, accurate to ~1e-13) against the intended one
+    let gap = d2(ca.c.x, ca.c.y, cb.c.x, cb.c.y) - k.base();
+    acc.ratio_gap = acc.ratio_gap.min(gap.abs());
+    acc.ratio_gap_rel_err = acc.ratio_gap_rel_err.max(((gap - k.sd) / k.sd).abs());
+    for c in [&ca, &cb] {
+        acc.ratio_reach = acc.ratio_reach.max(c.c.x.abs() + c.r).max(c.c.y.abs() + c.r);
+    }
+    if crossing {
+        acc.inc(C::RatioCcIntersect);
+        acc.inc(C::Nontrivial);
+    } else {
+        acc.inc(if k.inside { C::RatioCcNoneInside } else { C::RatioCcNoneOutside });
+    }
+    let res_ab = catch(|| util::intersect_cc(&ca, &cb));
+    let res_ba = catch(|| util::intersect_cc(&cb, &ca));
+    acc.inc(C::Evals);
+    acc.inc(C::Evals);
+    let what = || {
+        format!(
+            "circle a centre {} r={:?} and circle b centre {} r={:?} (radius ratio {:?}; b's centre in direction ({}/{h},{}/{h}) at distance {} from a's, measured {:+e} from the {} tangency distance): they {}, {:e} away from tangency (library tolerance 1e-9)",
+            ps(&ca.c), ca.r, ps(&cb.c), cb.r, ca.r / cb.r, k.dir.0, k.dir.1, k.dist_text(), gap, if k.inside { "inside" } else { "outside" },
+            if crossing { "cross in two points" } else if k.inside { "are nested without contact" } else { "are separated" }, k.sd.abs(), h = k.dir.2
+        )
+    };
+    let bucket = |check: &str| format!("{check} R={:?} r={:?} d={}", k.big, k.small, k.dist_text());
+    for (which, res) in [("(a,b)", &res_ab), ("(b,a)", &res_ba)] {
+        let v = match res {
+            Err(_) => {
+                let s = cc_obs_string(res);
+                *acc.ratio_fails.entry(bucket("panic")).or_insert(0) += 1;
+                acc.fail("cc_ratio_panic", key, || Violation::new(format!("cc_ratio_panic:{}", k.sig()), format!("intersect_cc{which} panicked at an extreme radius ratio: {}: {s}", what()), k.replay("cc_ratio_panic")));
+                continue;
+            }
+            Ok(v) => v,
+        };
+        if which == "(a,b)" {
+            match cc_kind_of(v) {
+                CcKind::Intersect => acc.inc(C::RatioObsIntersect),
+                CcKind::TouchInside | CcKind::TouchOutside => acc.inc(C::RatioObsTouch),
+                _ => {}
+            }
+        }
+        if cc_kind_of(v) != exact {
+            let s = cc_obs_string(res);
+            *acc.ratio_fails.entry(bucket("kind")).or_insert(0) += 1;
+            acc.fail("cc_ratio_kind", key, || Violation::new(format!("cc_ratio_kind:{}", k.sig()), format!("intersect_cc{which} kind at an extreme radius ratio: {}: exact class {:?}, library returned {s}", what(), exact), k.replay("cc_ratio_kind")));
+        }
+        let pts = cc_points(v);
+        let offs: Vec<f64> = pts.iter().flat_map(|p| [off_circle(p, &ca.c, ca.r), off_circle(p, &cb.c, cb.r)]).collect();
+        let apart = if pts.len() == 2 { d2(pts[0].x, pts[0].y, pts[1].x, pts[1].y) } else { f64::INFINITY };
+        if !(offs.iter().all(|w| within(*w)) && apart > TOL) {
+            let s = cc_obs_string(res);
+            *acc.ratio_fails.entry(bucket("points")).or_insert(0) += 1;
+            acc.fail("cc_ratio_points", key, || {
+                Violation::new(format!("cc_ratio_points:{}", k.sig()), format!("intersect_cc{which} points at an extreme radius ratio: {}: library returned {s}; per point (off circle a, off circle b) = {:?} (tolerance 1e-7), mutual distance {:?}", what(), offs, apart), k.replay("cc_ratio_points"))
+            });
+        } else if cc_kind_of(v) == exact {
+            acc.ratio_max_off = offs.iter().fold(acc.ratio_max_off, |m, w| m.max(*w));
+            acc.ratio_min_apart = acc.ratio_min_apart.min(apart);
+        }
+    }
+    if crossing && k.dir.2 != 1 && k.c4 != (0, 0) {
+        acc.note("cc_ratio_crossing", key, || {
+            json!({"call": "intersect_cc", "a": {"centre": pj(&ca.c), "r": ca.r}, "b": {"centre": pj(&cb.c), "r": cb.r}, "centre_distance": k.dist_text(), "measured_distance_from_tangency": gap,
+                   "exact": "Intersect", "observed_ab": cc_obs_string(&res_ab), "observed_ba": cc_obs_string(&res_ba)})
+        });
+    }
+}
+
+/// The extreme-radius-ratio family, mildest first: radius of the larger circle ascending, of the smaller
+/// descending, delta descending; then centre (origin first), direction (axes first), and the four
+/// distances R+r-delta (crossing), R-r+delta (crossing), R+r+delta (separated), R-r-delta (nested).
+struct RatioFamily {
+    tfi: u64,
+    bigs: Vec<f64>,
+    smalls: Vec<f64>,
+    deltas: Vec<f64>,
+    centres4: Vec<IP>,
+    dirs: Vec<(i64, i64, i64)>,
+}
+
+impl RatioFamily {
+    fn run(&self) -> Acc {
+        let variants = [(false, -1.0), (true, 1.0), (false, 1.0), (true, -1.0)];
+        let nmajor = self.bigs.len() * self.smalls.len() * self.deltas.len();
+        (0..nmajor)
+            .into_par_iter()
+            .map(|major| {
+                let mut acc = Acc::new();
+                let di = major % self.deltas.len();
+                let ri = major / self.deltas.len() % self.smalls.len();
+                let bi = major / self.deltas.len() / self.smalls.len();
+                let mut minor = 0u64;
+                for &c4 in &self.centres4 {
+                    for &dir in &self.dirs {
+                        for &(inside, sign) in &variants {
+                            let k = RatioCase { big: self.bigs[bi], small: self.smalls[ri], c4, dir, inside, sd: sign * self.deltas[di] };
+                            check_cc_ratio(&mut acc, (self.tfi, major as u64, minor), &k);
+                            minor += 1;
+                        }
+                    }
+                }
+                acc
+            })
+            .reduce(Acc::new, Acc::merge)
+    }
+}
+
 // ------------------------------------------------------------------------------------------------
 // line–line, parallel
 // ------------------------------------------------------------------------------------------------
@@ -1447,9 +1670,18 @@ impl SkewPlane {
 // ------------------------------------------------------------------------------------------------
 
 fn confirm(v: &Value) -> Result<(), String> {
+    let fam = v["family"].as_str().unwrap_or("").to_string();
+    if v["case"].as_str() == Some("cc_ratio") {
+        let k = RatioCase::from_json(v).ok_or("replay file does not describe a case of the extreme-radius-ratio family")?;
+        let mut acc = Acc::new();
+        check_cc_ratio(&mut acc, (0, 0, 0), &k);
+        return match acc.fails.iter().find(|(f, _)| **f == fam.as_str()) {
+            Some((_, (_, viol))) => Err(viol.summary.clone()),
+            None => Ok(()),
+        };
+    }
     let tf = Tf::from_json(&v["tf"]);
     let g = |name: &str| -> IP { (v[name][0].as_i64().unwrap(), v[name][1].as_i64().unwrap()) };
-    let fam = v["family"].as_str().unwrap_or("").to_string();
     // replay files of the near-boundary family name the radius change; anything else is the plain case
     let pert = v["pert"].as_u64().unwrap_or(0) as usize;
     if pert >= PERTS.len() {
@@ -1582,6 +1814,29 @@ fn main() {
         info
     };
 
+    // extreme radius ratios: dyadic radii, centres in quarters (origin, a lattice point, two non-lattice positions)
+    let ratio = RatioFamily {
+        tfi: tfs.len() as u64 + 1,
+        bigs: args.tier.pick(vec![8.0, 50.0, 100.0, 640.0], vec![8.0, 16.0, 50.0, 100.0, 200.0, 400.0, 640.0]),
+        smalls: args.tier.pick(vec![2.0, 1.0, 0.5], vec![4.0, 2.0, 1.0, 0.5, 0.25]),
+        deltas: args.tier.pick(vec![1e-3, 1e-5, 1e-6, 1e-7, 1e-8], vec![1e-3, 1e-4, 1e-5, 1e-6, 3e-7, 1e-7, 3e-8, 1e-8]),
+        centres4: vec![(0, 0), (12, -8), (150, -49), (-481, 1242)],
+        dirs: vec![(1, 0, 1), (0, 1, 1), (-1, 0, 1), (0, -1, 1), (3, 4, 5), (-4, 3, 5), (-5, -12, 13), (15, -8, 17), (-7, 24, 25)],
+    };
+    let ratio_info = {
+        let t0 = run.elapsed();
+        let acc = ratio.run();
+        let fails: BTreeMap<String, u64> = acc.ratio_fails.clone();
+        let info = json!({"larger_radii": ratio.bigs, "smaller_radii": ratio.smalls, "deltas": ratio.deltas, "centres_of_larger_circle": ratio.centres4.iter().map(|c| [c.0 as f64 / 4.0, c.1 as f64 / 4.0]).collect::<Vec<_>>(),
+                          "directions": ratio.dirs.iter().map(|d| format!("{}/{},{}/{}", d.0, d.2, d.1, d.2)).collect::<Vec<_>>(), "centre_distances": ["R+r-delta (crossing)", "R-r+delta (crossing)", "R+r+delta (separated)", "R-r-delta (nested)"],
+                          "pairs": acc.get(C::RatioCcIntersect) + acc.get(C::RatioCcNoneOutside) + acc.get(C::RatioCcNoneInside), "evaluations": acc.get(C::Evals),
+                          "min_measured_distance_from_tangency": acc.ratio_gap, "max_relative_disagreement_measured_vs_intended_delta": acc.ratio_gap_rel_err, "max_abs_coordinate_on_circles": acc.ratio_reach,
+                          "accepted_answers_max_point_distance_from_a_circle": acc.ratio_max_off, "accepted_answers_min_mutual_distance_of_two_points": if acc.ratio_min_apart.is_finite() { json!(acc.ratio_min_apart) } else { Value::Null },
+                          "failing_calls_per_check_radii_distance": fails, "seconds": ((run.elapsed() - t0) * 100.0).round() / 100.0});
+        total = total.merge(acc);
+        info
+    };
+
     // ---- evidence -----------------------------------------------------------------------------
     for (i, name) in CNAMES.iter().enumerate() {
         run.cov(name, total.c[i]);
@@ -1589,13 +1844,14 @@ fn main() {
     run.cov("exhaustive", true);
     run.cov(
         "rule",
-        "lattice 1: all integer centres in [-N,N]^2 x radii 1..=R, lines through all ordered pairs of distinct lattice points; circle-line = every circle x every line, circle-circle = every ordered pair of circles (both argument orders called), line-line + parallel = every ordered pair of lines, position = every circle x every lattice point, contains = every line x every lattice point. lattice 2: the same enumeration on [-N2,N2]^2 fed through rotation (3/5,4/5),(5/13,12/13),(8/17,15/17), shift by quarters, integer scale (second line of line-line cases restricted to every ll_second_line_stride-th ordered pair). Classes decided exactly in i128 on the pre-image integers. near-boundary family: EVERY exactly tangent circle-line configuration, EVERY exactly tangent ordered circle pair (inside and outside) and EVERY exact border point met by the above, in every lattice image (radii up to ~480), is fed again with one fed radius changed by each of +-1e-8, +-3e-7, +-1e-5; the sign of the change decides the class (secant/miss, crossing/separated/nested, inside/outside), the configuration is |change| away from the boundary; demanded: the kind, every returned point on both primitives within 1e-7, two returned points distinct. skew plane: coordinates in units of 2^-19; every axis-parallel line spanning the scaled lattice box with its second defining point nudged sideways by +-2^-e, both orientations, against every ordinary lattice line in both argument orders and against every skew line (parallel / crossing decided in i128; returned point on both lines within 1e-7 when the exact point is within 1e3), and contains() of all lattice points, the defining points and the un-nudged endpoint. distinct_nontrivial = enumerated configurations (each a distinct input) whose exact class is a contact: circle-line Touch/Intersect, circle-circle Same/TouchInside/TouchOutside/Intersect, non-parallel line pairs, near-boundary secants and crossing circle pairs",
+        "lattice 1: all integer centres in [-N,N]^2 x radii 1..=R, lines through all ordered pairs of distinct lattice points; circle-line = every circle x every line, circle-circle = every ordered pair of circles (both argument orders called), line-line + parallel = every ordered pair of lines, position = every circle x every lattice point, contains = every line x every lattice point. lattice 2: the same enumeration on [-N2,N2]^2 fed through rotation (3/5,4/5),(5/13,12/13),(8/17,15/17), shift by quarters, integer scale (second line of line-line cases restricted to every ll_second_line_stride-th ordered pair). Classes decided exactly in i128 on the pre-image integers. near-boundary family: EVERY exactly tangent circle-line configuration, EVERY exactly tangent ordered circle pair (inside and outside) and EVERY exact border point met by the above, in every lattice image (radii up to ~480), is fed again with one fed radius changed by each of +-1e-8, +-3e-7, +-1e-5; the sign of the change decides the class (secant/miss, crossing/separated/nested, inside/outside), the configuration is |change| away from the boundary; demanded: the kind, every returned point on both primitives within 1e-7, two returned points distinct. skew plane: coordinates in units of 2^-19; every axis-parallel line spanning the scaled lattice box with its second defining point nudged sideways by +-2^-e, both orientations, against every ordinary lattice line in both argument orders and against every skew line (parallel / crossing decided in i128; returned point on both lines within 1e-7 when the exact point is within 1e3), and contains() of all lattice points, the defining points and the un-nudged endpoint. distinct_nontrivial = enumerated configurations (each a distinct input) whose exact class is a contact: circle-line Touch/Intersect, circle-circle Same/TouchInside/TouchOutside/Intersect, non-parallel line pairs, near-boundary secants and crossing circle pairs. extreme radius ratios: every (R, r, delta, centre, direction) of the lists under ratio_family, the smaller circle's centre at distance R+r-delta, R-r+delta (crossing: kind Intersect demanded), R+r+delta, R-r-delta (separated / nested: kind None demanded) from the larger one's along the direction, both argument orders; delta >= 1e-8 = 10x the library tolerance decides the class by its sign; demanded as in the near-boundary family: kind, every returned point on both circles within 1e-7, two returned points distinct",
     );
     run.cov("lattice1", json!({"half_width": n1, "max_radius": r1}));
     run.cov("lattice2", json!({"half_width": n2, "max_radius": r2, "rotations": ["3/5,4/5", "5/13,12/13", "8/17,15/17"], "shifts_in_quarters": shifts, "scales": scale_notes}));
     run.cov("per_transform", per_tf);
     run.cov("near_boundary_radius_changes", PERTS[1..].to_vec());
     run.cov("skew_plane", skew_info);
+    run.cov("ratio_family", ratio_info);
     run.cov(
         "skew_plane_min_nonzero_boundary_gap",
         json!({"parallel_sine": total.gap_skew_parallel, "contains_abs": total.gap_skew_contains, "note": "exact, from the integer coordinates; library EPS = 1e-9, required > 2e-9"}),
@@ -1613,6 +1869,7 @@ fn main() {
     run.cov("failing_cases_per_family", json!(fc));
     run.assume("tangent / identical / border configurations of lattice 2 are fed as f64 images that differ from the exact configuration by rounding (~1e-13 at magnitude 1e3), far inside the library's own 1e-9 tolerance, so the exact class is still demanded");
     run.assume("near-boundary family: the tangent configuration is fed with rounding of ~1e-13 (lattice 1: none), so after a radius change of magnitude >= 1e-8 the fed configuration is that far (+-1e-12) from the boundary and on the side given by the sign of the change; the property excludes only configurations within 1e-9 (position: within 1e-9 of the radius, relatively - such changes are skipped and counted)");
+    run.assume("extreme-radius-ratio family: radii and the larger circle's centre are dyadic (exact); the smaller circle's centre is computed in f64 (direction cosines p/h, q/h, one multiplication and one addition per coordinate), so the fed centre distance differs from the intended R+-r+-delta by rounding of ~1e-13; the engine measures it (min_measured_distance_from_tangency) and refuses to run if it disagrees with the intended delta by more than 0.1 %, so every fed pair is >= 0.999e-8 from the tangency boundary on the side given by the sign of delta; all points of all circles have |coordinate| <= 1e3 (checked)");
     run.assume("near-boundary and skew families demand what the property states of a returned point (on both primitives within 1e-7) and not its position along two almost coincident directions, which the data do not determine to 1e-7");
     run.assume("the 1e-7 accuracy clause is applied only where all coordinates involved are <= 1e3 (line-line intersection points beyond that are counted in skipped_out_of_domain; their kind is still checked)");
 
@@ -1637,6 +1894,12 @@ fn main() {
             run.machinery_failure(&format!("boundary gap {name} = {g:?} is not > 2e-9: the skew plane contains configurations inside the excluded tolerance band"));
         }
     }
+    if !(total.ratio_gap_rel_err <= RATIO_GAP_REL) || !(total.ratio_gap >= RATIO_FLOOR * (1.0 - RATIO_GAP_REL)) {
+        run.machinery_failure(&format!("extreme-radius-ratio family: fed centre distances do not reproduce the intended deltas (min measured distance from tangency {:?}, max relative disagreement {:?})", total.ratio_gap, total.ratio_gap_rel_err));
+    }
+    if !(total.ratio_reach <= COORD_LIMIT) {
+        run.machinery_failure(&format!("extreme-radius-ratio family: a fed circle reaches |coordinate| {:?} > 1e3", total.ratio_reach));
+    }
     if !PERTS[1..].iter().all(|d| d.abs() > NEAR_FLOOR) {
         run.machinery_failure("a near-boundary radius change is inside the excluded tolerance band");
     }
@@ -1649,6 +1912,9 @@ fn main() {
         (C::NearPosInside, "points just inside a circle"),
         (C::NearPosOutside, "points just outside a circle"),
         (C::NearLargeRadiusInRelBand, "near-tangent cases whose distance from tangency is below radius * 1e-9"),
+        (C::RatioCcIntersect, "crossing pairs with an extreme radius ratio"),
+        (C::RatioCcNoneOutside, "separated pairs with an extreme radius ratio"),
+        (C::RatioCcNoneInside, "nested pairs with an extreme radius ratio"),
         (C::SkewLlParallel, "parallel pairs in the skew plane"),
         (C::SkewLlPointChecked, "skew-plane crossings within 1e3"),
         (C::SkewLlSteepFirst, "skew-plane crossings whose first line has a minor coefficient below 1e-6"),
